@@ -632,7 +632,7 @@ class C09:
                     mt = kw.get("matches")
                     whole = [k for k in ("annotations", "predictions") if kw.get(k, NONE)[0] == "param"]
                     if (mt is None or mt in (("list", ()), NONE)) and whole:
-                        ctx.bad("R09.8", m.relpath, name, "data.ClipEvaluation(annotations=<clip annotation>, predictions=<clip prediction>) without matches",
+                        ctx.bad("R09.8", m.relpath, name, f"{tm}: data.ClipEvaluation(annotations=<clip annotation>, predictions=<clip prediction>) without matches",
                                 f"{tm}: the per-clip result is built as ClipEvaluation({', '.join(k + '=' + show(kw[k]) for k in whole)}) with no "
                                 f"matches, but ClipEvaluation requires every annotated and every predicted sound event of the objects it is given "
                                 f"to appear in a match: for a clip whose annotation or prediction carries sound events the task raises a "
@@ -652,7 +652,7 @@ class C09:
             fl = ef.Flow(ctx, modname, tm).run()
             se_level = tm.startswith("sound_event")
             ef.check_metric_calls(ctx, "R09.9", fl, tm)
-            ef.check_objects(ctx, "R09.10", fl, tm, se_level)
+            ef.check_objects(ctx, "R09.10", fl, tm, se_level, both_sides=(tm == "sound_event_classification"))
             for o in fl.obs:
                 if o.kind not in ("Evaluation", "ClipEvaluation"):
                     continue
